@@ -84,6 +84,10 @@ def jobs(tier):
     add(U + 'trim', dict(d=1, npm=2, sizes=[2, 3, 2], cache=1))
     add(U + 'trim', dict(d=1, npm=2, sizes=[2, 3], cache=1))
     # nautilus bound
+    add(N + 'nb_contains', dict(d=2, n=1, sizes=[3]), block=B)
+    add(N + 'nb_contains', dict(d=2, n=1, sizes=[3], periodic=[0]), block=B)
+    add(N + 'nb_contains', dict(d=2, n=2, sizes=[3, 3], periodic=[1],
+                                n_neural=2), block=B)
     add(N + 'nb_sample', dict(d=1, n=1, cache=1), block=B)
     add(N + 'nb_sample', dict(d=1, n=2, cache=1), block=B)
     add(N + 'nb_sample', dict(d=1, n=2, cache=1, periodic=[0]), block=B)
